@@ -48,12 +48,20 @@ def realise_layout(case):
     return text, new, dict(ops), edits
 
 
-def layout_case_strategy(files, levels=(1, 2, 3, 4), level_weights=None):
+def source_strategy(files, p_design=0.3):
+    """fixture paths (D1) mixed with grammar-generated designs (D3, 'design:<seed>')"""
+    files = list(files)
+    d = st.integers(0, 2**31 - 1).map(lambda s: "design:%d" % s)
+    n = max(1, int(round(p_design * 10)))
+    return st.one_of(*([st.sampled_from(files)] * (10 - n) + [d] * n))
+
+
+def layout_case_strategy(files, levels=(1, 2, 3, 4), level_weights=None, p_design=0.3):
     files = list(files)
     lv = st.sampled_from(list(levels)) if not level_weights else st.sampled_from([l for l, w in zip(levels, level_weights) for _ in range(w)])
     return st.fixed_dictionaries(
         {
-            "file": st.sampled_from(files),
+            "file": source_strategy(files, p_design),
             "level": lv,
             "lseed": st.integers(0, 2**31 - 1),
             "tabs": st.booleans(),
